@@ -105,7 +105,19 @@ def follow_fixpoint(h):
     h.run("edit")
 
 
-FOLLOW = {"check": follow_check, "c02": follow_c02, "fixpoint": follow_fixpoint}
+def follow_recover(h):
+    """after a crashed or failed run: the developer removes code (every file gets shorter), then an ordinary edit run and a
+    check: whatever the first run left behind must not leak into the files"""
+    cur = {n: [dict(x) for x in h.tree[n]] for n in h.names if h.present[n]}
+    for n in sorted(cur):
+        keep = max(1, len(cur[n]) // 2) if cur[n] else 0
+        cur[n] = cur[n][:keep]
+    h.dev(cur)
+    h.run("edit")
+    h.run("check")
+
+
+FOLLOW = {"check": follow_check, "c02": follow_c02, "fixpoint": follow_fixpoint, "recover": follow_recover}
 
 
 # ---------------------------------------------------------------------------------------------
